@@ -193,6 +193,15 @@ def run(chk):
         scns.append(pipe.gen_scenario(rng, strategy="stop", dry=False, big=(i % 5 == 0)))
     for i in range(n_chain):
         scns.append(gen_chain(rng))
+    # exhaustive small scope: every plan over 2 (thorough: 3 and, sampled, 4) selected files x 7 names x every order, 1 and 2 roots
+    small = list(pipe.exhaustive_plans(2)) + list(pipe.exhaustive_plans(2, roots=2))
+    if not quick:
+        small += list(pipe.exhaustive_plans(3)) + list(pipe.exhaustive_plans(3, roots=2))
+        four = list(pipe.exhaustive_plans(4))
+        rng.shuffle(four)
+        small += four[:6000]
+    stats["exhaustive_small_scope"] = len(small)
+    scns += small
     obss = []
     for s in scns:
         o = pipe.run_impl(s, keep_snapshots=False)
